@@ -533,6 +533,93 @@ def nullable_variable_as_list_item_under_defaulted_argument(rng, doc, s):
 
 
 @operator("VariablesInAllowedPositionChecker")
+def nullable_variable_at_defaulted_and_undefaulted_position(rng, doc, s):
+    """`$v: T` (nullable, no default) is fine for `a: T! = d` (the location has a default) and wrong for
+    `b: T!`: two usages that expect the same type are still two usages; in either order, anywhere in
+    one operation (also as two fields of one input-object literal)."""
+    per_op = {}
+    for sels, scope, owner in walk_selection_lists(doc, s):
+        st = s.types.get(scope)
+        if not isinstance(owner, opgen.OOperation) or st is None or st.kind not in ("object", "interface"):
+            continue
+        wd, wo = per_op.setdefault(id(owner), (owner, {}, {}))[1:]
+        for f in st.fields:
+            for a in f.args:
+                if a.type[0] == "nonnull":
+                    (wd if a.has_default else wo).setdefault(repr(a.type), []).append((sels, scope, f, a))
+    cands = []
+    for owner, wd, wo in per_op.values():
+        for k in sorted(set(wd) & set(wo)):
+            cands.append((owner, wd[k], wo[k]))
+    # the same inside one input-object literal: input I { a: T! = d, b: T! } written as {a: $v, b: $v}
+    lit_cands = []
+    for sels, scope, owner in walk_selection_lists(doc, s):
+        st = s.types.get(scope)
+        if not isinstance(owner, opgen.OOperation) or st is None or st.kind not in ("object", "interface"):
+            continue
+        for f in st.fields:
+            for a in f.args:
+                base = S.nullable(a.type)
+                it = s.types.get(base[1]) if base[0] == "named" else None
+                if it is None or it.kind != "input":
+                    continue
+                d_, r_ = {}, {}
+                for x in it.input_fields:
+                    if x.type[0] == "nonnull":
+                        (d_ if x.has_default else r_).setdefault(repr(x.type), []).append(x)
+                for k in sorted(set(d_) & set(r_)):
+                    lit_cands.append((owner, sels, scope, f, a, it, d_[k][0], r_[k][0]))
+    if lit_cands and (not cands or rng.random() < 0.5):
+        op, sels, scope, f, a, it, xd, xr = rng.choice(lit_cands)
+        op.variables.append(("maybeNull", xd.type[1], UNSET))
+        lit = collections.OrderedDict()
+        for x in it.input_fields:
+            if x is xd or x is xr:
+                lit[x.name] = Var("maybeNull")
+            elif x.type[0] == "nonnull" and not x.has_default:
+                lit[x.name] = _sg(rng, s).input_value_for(x.type)
+        if rng.random() < 0.3:
+            lit = collections.OrderedDict(reversed(list(lit.items())))
+        args = collections.OrderedDict()
+        for b in f.args:
+            if b is a:
+                args[b.name] = lit
+            elif b.type[0] == "nonnull" and not b.has_default:
+                args[b.name] = _sg(rng, s).input_value_for(b.type)
+        sub = None
+        if s.kind(S.unwrap(f.type)) in ("object", "interface", "union"):
+            sub = [opgen.OField("__typename", S.unwrap(f.type))]
+        sels.append(opgen.OField(f.name, scope, "useInLiteral", args, [], sub))
+        return True
+    if not cands:
+        return None
+    op, wd, wo = rng.choice(cands)
+    (sels1, scope1, f1, a1), (sels2, scope2, f2, a2) = rng.choice(wd), rng.choice(wo)
+    op.variables.append(("maybeNull", a1.type[1], UNSET))
+
+    def mk(scope, f, a, alias):
+        args = collections.OrderedDict()
+        for b in f.args:
+            if b is a:
+                args[b.name] = Var("maybeNull")
+            elif b.type[0] == "nonnull" and not b.has_default:
+                args[b.name] = _sg(rng, s).input_value_for(b.type)
+        sub = None
+        if s.kind(S.unwrap(f.type)) in ("object", "interface", "union"):
+            sub = [opgen.OField("__typename", S.unwrap(f.type))]
+        return opgen.OField(f.name, scope, alias, args, [], sub)
+
+    good, bad = mk(scope1, f1, a1, "useAtDefaulted"), mk(scope2, f2, a2, "useAtRequired")
+    if sels1 is sels2 and rng.random() < 0.3:
+        sels1.extend([bad, good])
+    else:
+        # the legal usage comes first in document order whenever the two lists are nested in this order
+        sels1.append(good)
+        sels2.append(bad)
+    return True
+
+
+@operator("VariablesInAllowedPositionChecker")
 def variable_at_two_differently_typed_positions(rng, doc, s):
     """One variable used at an Int position and at a String position, in either order: whatever
     its declared type, one usage does not fit."""
